@@ -6,7 +6,7 @@ in journal order), every failing line with its error class, the failure of the e
 the exit status are compared.
 Oracle: python datetime arithmetic written from the property text (per-account matching of check-ins
 and check-outs, elapsed seconds, the calendar days a session touches, per-account sums)."""
-import re
+import re, time
 from datetime import datetime, timedelta, date
 import lib
 
@@ -276,7 +276,14 @@ def run_impl(path, now, db):
     args = ['-f', path, 'reg', '--empty', '--now', (EPOCH + timedelta(seconds=now)).strftime('%Y/%m/%d'), '--format', FMT]
     if db:
         args.append('--day-break')
-    st, out, err = lib.run_ledger(args)
+    for attempt in range(5):
+        try:
+            st, out, err = lib.run_ledger(args, timeout=10)
+            break
+        except OSError:          # the binary is being re-linked by a concurrent build
+            if attempt == 4:
+                raise
+            time.sleep(2)
     rows = []
     for l in out.decode('utf-8', 'replace').split('\n'):
         if not l:
@@ -358,7 +365,7 @@ def oracle(case, at, r, db):
                 first_error = (ln, 'check-out with no open check-in')
                 break
             if len(opened) > 1:
-                notes.append('a check-out naming no account while several accounts are open: the statement does not say which session it ends')
+                notes.append('a check-out naming no account while several accounts are open: the statement does not say which session it ends (ledger takes the account name from the bytes an earlier line left at column 22 of its line buffer, textual.cc:499)')
                 return viol, notes
             a = next(iter(opened))
         elif a not in opened:
@@ -372,6 +379,10 @@ def oracle(case, at, r, db):
             first_error = (ln, 'check-out earlier than its check-in')
             break
         sessions.append((a, tin, when, lin))
+    if r['status'] == 'timeout' or (isinstance(r['status'], int) and r['status'] < 0):
+        viol.append(('no-result:%s' % ('timeout' if r['status'] == 'timeout' else 'signal'), 'ledger gives no result on a time-clock file',
+                     'status %s' % (r['status'],), 'a report or an error message'))
+        return viol, notes
     failed = r['status'] != 0 or bool(r['errs']) or r['close'] is not None
     if first_error:
         ln, what = first_error
@@ -424,6 +435,8 @@ def oracle(case, at, r, db):
         got = {}
         for w in mine:
             got[w['date']] = got.get(w['date'], 0) + w['secs']
+        if whole == 0 and got == {tin.strftime('%Y/%m/%d'): 0}:
+            got = {}              # a session of no seconds touches no day; one 0s posting on its day is as good
         if sum(w['secs'] for w in mine) != whole:
             viol.append(('daybreak:sum', 'pieces of session %s .. %s sum to %d' % (tin, tout, sum(w['secs'] for w in mine)),
                          sum(w['secs'] for w in mine), whole))
@@ -453,6 +466,28 @@ def oracle(case, at, r, db):
 
 
 # ---- the run ---------------------------------------------------------------------------------------
+def judge(ctx, case, db):
+    text, at = render(case)
+    path = ctx.path('shrink.dat')
+    open(path, 'w').write(text)
+    r = run_impl(path, case['now'], db)
+    return oracle(case, at, r, db)[0], text
+
+
+def shrink(ctx, case, db, key):
+    """drop events greedily while the oracle still reports `key`"""
+    cur = dict(events=list(case['events']), now=case['now'])
+    for width in (16, 8, 4, 2, 1):
+        i = 0
+        while i < len(cur['events']) and len(cur['events']) > 1:
+            cand = dict(events=cur['events'][:i] + cur['events'][i + width:], now=cur['now'])
+            if cand['events'] and any(v[0] == key for v in judge(ctx, cand, db)[0]):
+                cur = cand
+            else:
+                i += 1
+    return cur
+
+
 def features(case, model_line):
     f = set()
     ev = case['events']
@@ -480,7 +515,7 @@ def run(ctx, n_override=None):
                 '29 February; interleaved sessions; check-outs with and without account; sessions left open; every malformed kind), each '
                 'run with and without --day-break; non-trivial = the file closes at least one session or contains an erroneous line; '
                 'distinct by file text, --now and the day-break flag')
-    n = n_override or ctx.scale(1200, 15000)
+    n = n_override or ctx.scale(1000, 6000)
     cases = []
     for i in range(n):
         k = rng.random()
@@ -500,13 +535,20 @@ def run(ctx, n_override=None):
         prepared.append((tag, case, text, at, slips))
     model_out = lib.run_model('C20', model_in)
     noted = {}
+    hangs = 0
+    shrunk = set()
     for i, (tag, case, text, at, slips) in enumerate(prepared):
+        if hangs >= 3:
+            res.notes.append('stopped after 3 runs that did not terminate within 10 s')
+            break
         path = ctx.path('tl.dat')
         open(path, 'w').write(text)
         for s in slips:
             res.disagreements.append(dict(name='C20/glue', case=text, impl='line %d read as %r / %r' % s, model='the written account and description'))
         for db in (0, 1):
             r = run_impl(path, case['now'], db)
+            if r['status'] == 'timeout':
+                hangs += 1
             ri = impl_canon(r, at)
             ml = model_out[2 * i + db]
             rm = ml.split(' ', 1)[1] if ' ' in ml else ml
@@ -527,7 +569,17 @@ def run(ctx, n_override=None):
             for nt in notes:
                 noted[nt] = noted.get(nt, 0) + 1
             for key, desc, obs, req in viol:
-                res.violations.append(dict(key=key, desc=desc, case=dict(journal=text, now=case['now'], day_break=bool(db)),
+                jtext = text
+                if key not in shrunk and not key.startswith('no-result'):
+                    shrunk.add(key)
+                    small = shrink(ctx, case, db, key)
+                    vs, jtext = judge(ctx, small, db)
+                    hit = [v for v in vs if v[0] == key]
+                    if hit:
+                        _, desc, obs, req = hit[0]
+                    else:
+                        jtext = text
+                res.violations.append(dict(key=key, desc=desc, case=dict(journal=jtext, now=case['now'], day_break=bool(db)),
                                            observed=str(obs), required=str(req)))
     for nt, c in sorted(noted.items()):
         res.notes.append('%s [%d runs]' % (nt, c))
@@ -536,9 +588,9 @@ def run(ctx, n_override=None):
 
 def search(ctx, broken):
     import random
-    for s in range(4):
+    for s in range(2):
         ctx.rng = random.Random('C20-search-%d-%d' % (ctx.seed, s))
-        r = run(ctx, n_override=3000)
+        r = run(ctx, n_override=2000)
         if r.violations:
             return r.violations
     return []
